@@ -54,3 +54,9 @@ pub mod websocket {
     /// The name of the Warp protocol for negotiation web-socket connections.
     pub const WARP: &str = "warp0";
 }
+
+/// Re-exports of internal components for external runtime-verification harnesses. Off by default.
+#[cfg(feature = "verif_hooks")]
+pub mod verif_hooks {
+    pub use crate::task::verif_hooks::*;
+}
